@@ -255,3 +255,31 @@ Definition a_step (s : aio) (o : atop) : aio * res value :=
   end.
 
 Definition a_init (tz : option Z) (now : Z) : aio := mkAio tz now [] [] O [].
+
+(* ---- same-instant ties (used by the correspondence harness only, no theorem is about it) -----------
+   The order in which the event loop resumes two tasks that become runnable at the same instant is
+   implementation defined.  [a_step_ties s o] mirrors a_step and reports whether, at any resumption, another
+   task was runnable at the very same instant. *)
+Definition other_same_wake (l : list (nat * ajob)) (id : nat) (w : Z) : bool :=
+  existsb (fun ia => negb (Nat.eqb (fst ia) id) && match wake_of (snd ia) with Some w' => w' =? w | None => false end) l.
+Fixpoint a_run_ties (fuel : nat) (s : aio) (t : Z) : bool :=
+  match fuel with
+  | O => false
+  | S f =>
+      match earliest (a_jobs s) None with
+      | Some (id, w) =>
+          if w <=? t then
+            let s1 := mkAio (a_tz s) (Z.max (a_now s) w) (a_reg s) (a_jobs s) (a_next s) (a_events s) in
+            other_same_wake (a_jobs s) id w || a_run_ties f (a_resume s1 id) t
+          else false
+      | None => false
+      end
+  end.
+Definition a_step_ties (s : aio) (o : atop) : bool :=
+  let s := a_clear s in
+  match o with
+  | TSchedule c durs pre post sync => let s' := fst (a_schedule s c durs pre post sync) in a_run_ties RUN_FUEL s' (a_now s')
+  | TOnce ot c durs pre post sync => let s' := fst (a_schedule s (once_cfg ot c) durs pre post sync) in a_run_ties RUN_FUEL s' (a_now s')
+  | TOp o => let s' := fst (a_op s o None) in a_run_ties RUN_FUEL s' (a_now s')
+  | TRun t => a_run_ties RUN_FUEL s t
+  end.
